@@ -119,6 +119,58 @@ kfs_harness! {
     }
 }
 
+// Crash debris: the temp directory holds a stale second link to the inode that is published under
+// the key - what a crash between link and unlink in a put leaves behind.
+kfs_harness! {
+    #[kani::unwind(48)]
+    fn c02_cleanup_temp_debris() {
+        kfs::reset();
+        kfs::mkdir(kfs::D_W);
+        kfs::mkdir(kfs::D_WT);
+        let mut pa = kfs::any_published(kfs::S_A, 1);
+        pa.mt_s = 10; pa.mt_ns = 0; pa.nlink = 2;
+        let ia = kfs::install(kfs::D_W, kfs::S_A, pa);
+        kfs::k().dir[kfs::D_WT as usize].slot[kfs::S_T0 as usize] = ia;
+        kani::assume(kfs::k().now_s > 100_000);
+        let mode_before = kfs::k().ino[ia as usize].mode;
+        kfs::begin_op(kfs::OP_CLEANUP_TEMP, 1, 0, 0);
+        let r = cleanup_temporary_directory(Cow::from(kfs::path_of(kfs::D_WT, kfs::NONE)));
+        let st = kfs::k();
+        assert!(r.is_ok(), "KV-C05: temp cleanup succeeds");
+        assert!(kfs::bound(kfs::D_W, kfs::S_A) == ia, "KV-C17: temp cleanup touches nothing outside .kismet_temp");
+        assert!(st.ino[ia as usize].mode == mode_before && (st.ino[ia as usize].mode & 0o222) == 0,
+                "KV-C02+C19: collecting crash debris never re-modes the published file it is linked to");
+        assert!(kfs::bound(kfs::D_WT, kfs::S_T0) == kfs::NONE && st.ino[ia as usize].nlink == 1,
+                "KV-C02: temp files older than the one-hour limit are removed, younger ones are left alone");
+        kani::cover!(true, "reachable");
+        std::mem::forget(r);
+    }
+}
+
+// A competing cleaner removes the stale temp file between our stat and our unlink.
+kfs_harness! {
+    #[kani::unwind(48)]
+    fn c05_cleanup_temp_vanish() {
+        kfs::reset();
+        kfs::mkdir(kfs::D_W);
+        kfs::mkdir(kfs::D_WT);
+        let mut t1 = kfs::any_published(kfs::NONE, 0);
+        t1.published = false; t1.complete = false; t1.mode = 0o100600; t1.mt_s = 20; t1.mt_ns = 0;
+        kfs::install(kfs::D_WT, kfs::S_OLD, t1);
+        kani::assume(kfs::k().now_s > 100_000);
+        // calls: 1 list, 2 stat of the entry, 3 unlink: the third finds the file gone
+        kfs::k().fail_at = 3;
+        kfs::k().fail_errno = kfs::ENOENT;
+        kfs::begin_op(kfs::OP_CLEANUP_TEMP, 2, 0, 0);
+        let r = cleanup_temporary_directory(Cow::from(kfs::path_of(kfs::D_WT, kfs::NONE)));
+        let st = kfs::k();
+        assert!(st.failed && st.kind_calls[kfs::C_UNLINK as usize] == 1, "KV-MODEL: the injected disappearance hits the unlink");
+        assert!(r.is_ok(), "KV-C05: temp cleanup succeeds when another participant removes a stale temp file first");
+        kani::cover!(true, "reachable");
+        std::mem::forget(r);
+    }
+}
+
 kfs_harness! {
     #[kani::unwind(48)]
     fn c02_cleanup_temp_missing_dir() {
